@@ -8,10 +8,40 @@ is specified to, so aliasing the mechanism should not have shows up as a
 divergence on the *other* side at the first later mutation.
 """
 from .c10 import C10
+from ..histgen import HistGen
+
+
+class Gen11(HistGen):
+    """Values as a loaded label has them: mostly unique integers, but also
+    strings, reals, None, booleans, lists, sets, dates, quantities and
+    empty-value placeholders."""
+
+    def __init__(self, rng, machine):
+        super().__init__(rng, machine, extra_ops=("copy",),
+                         scalar=self.scalar11)
+        self.p_rich = rng.choice([0.0, 0.1, 0.3])
+
+    def scalar11(self):
+        r = self.rng
+        if r.random() >= self.p_rich:
+            return self.unique_int()
+        return r.choice([
+            {"s": "two words"}, {"s": ""}, {"f": 1.5}, {"none": 1}, True,
+            {"list": [self.unique_int(), {"s": "x"}]},
+            {"set": [self.unique_int(), {"s": "SYM"}]},
+            {"dt": ["date", "2001-01-31"]},
+            {"dt": ["datetime", "2010-05-06T07:08:09+00:00"]},
+            {"dt": ["time", "01:02:03.000004"]},
+            {"q": [self.unique_int(), "km/s"]},
+            {"empty": r.randint(1, 99)}, {"empty": r.randint(1, 99)}])
 
 
 class C11(C10):
     ID = "C11"
+
+    def make_gen(self, rng, m):
+        return Gen11(rng, m)
+
     RUNS = {"quick": 40000, "thorough": 1500000}
     extra_ops = ("copy",)
     RULE = ("One run = one seeded history (1..40 operations) of the C10 "
